@@ -156,7 +156,10 @@ class Pack:
             return BUILTIN_EXC[last]
         if last == "error" and dotted.startswith("os"):
             return BUILTIN_EXC["OSError"]
-        raise Unsupported("unknown exception class %s" % dotted)
+        # an exception class of another library: some subclass of Exception, unrelated to the classes we know
+        self.exc_dotted[dotted] = ExcClass(dotted, bases=(BUILTIN_EXC["Exception"],))
+        self.assume_note("exception class %s is a direct subclass of Exception" % dotted)
+        return self.exc_dotted[dotted]
 
     # -- spec parsing --------------------------------------------------------------
     def parse_spec(self, text):
